@@ -13,6 +13,9 @@ CLAIMED = {
  "C04": ("exploration", "model-based PBT: generated histories with close/reopen cycles at generated points; reopened content compared with the reference prefix states",
          "Store-backed histories with caught-up (event-confirmed drain) and early close points, persister held at gates, options changed on reopen, immediate reopen without waiting for pending unlinks; caught-up reopen must equal the full reference, early reopen must equal the reference after some batch prefix no shorter than the last completed round. " + NOTE_SCHED,
          "5.C04"),
+ "C05": ("fault_enumeration", "crash-image enumeration from recorded file-operation traces of generated workloads; every image reopened and compared with the reference prefix states",
+         "A generated workload runs once under a recording File wrapper; from the trace, for every crash point, the process-kill image, torn variants of the in-flight write and (syncing on) the power-loss images - unsynced writes applied as subsets of 4096-byte block pieces, exhaustively up to 10 pieces - are built and reopened; the open must succeed and the content must be the reference after a batch prefix no shorter than the last round completed with syncing. Crash points are enumerated exhaustively per trace, block subsets exhaustively when small; traces and masks beyond that are generated.",
+         "5.C05"),
  "C07": ("exploration", "model-based PBT + metamorphic check around compactions detected from Store.Stats deltas",
          "Store-backed histories over all compaction concerns and small level parameters; collection and store content are compared with the reference after every step (so content is identical before and after each compaction); after a full compaction the store snapshot is iterated with IncludeDeletions (no marker, strictly ascending, nothing above segment level 0 at any nesting level); at the end the directory must hold one data file. " + NOTE_SCHED,
          "5.C07"),
